@@ -31,6 +31,24 @@ CHECKS = {
         note='trusts hplverif/ev.py (three-valued, order-independent connectives and quantifiers); depth <= 5 random, small grammar exhaustive in the thorough tier',
         ref='DESIGN.md section 4, C09',
     ),
+    'C10': dict(
+        technique='property-based differential evaluation of refactor_reference() results (f1 and f2 vs f) with the reference evaluator, own walkers for alias occurrences and free variables; random alias-mentioning terms and exhaustive small grammar',
+        level='bounded exploration with a semantic oracle: equivalence on every defined grid valuation (incl. empty quantifier domains), alias-freedom of f1, no escaping bound variable, kind preservation and the unchanged-input rule, for every alias of each case and one absent alias',
+        note='trusts hplverif/ev.py; "f itself" is read as the same object or an equal tree with identical stored types (predicates are re-wrapped by the library)',
+        ref='DESIGN.md section 4, C10',
+    ),
+    'C13': dict(
+        technique='property-based testing with the reference evaluator: algebraic laws of negate/join, metamorphic relation for this<->variable substitution (evaluate with the variable bound to the message), structural expectation from the model tree, round trip of the two replacements, event-with-own-alias vs alias-free spelling differential',
+        level='bounded exploration over four generated families (combinators incl. both vacuous predicates; this->var; var->this; aliased events via parser and via HplSimpleEvent.publish) with value, structure and reference-query oracles',
+        note='trusts hplverif/ev.py; aliases captured by a quantifier are excluded, as the property states',
+        ref='DESIGN.md section 4, C13',
+    ),
+    'C14': dict(
+        technique='robustness fuzzing of the rewriting API with an exception-class oracle: type-directed and type-chaotic generated ASTs, an exhaustive built-in-function x argument-shape table, literal-left comparison table, small-grammar enumeration; failures bucketed by (function, exception type, innermost hpl frame)',
+        level='bounded exploration: every rewriting function is called on every accepted generated AST and must return the documented kind; the only exceptions accepted are those the property allows, each decided by an explicit oracle (evaluator for undefined constants / zero divisors, literal-False test, reference-type clash test)',
+        note='canonical_form on properties whose split position binds an alias in only some alternatives is a listed known finding (F13); the allowed-raise rule for simplify also covers sub-terms undefined on the whole valuation grid',
+        ref='DESIGN.md section 4, C14',
+    ),
     'C20': dict(
         technique='small-scope exhaustive enumeration against a 7-bit integer model (generated-input search with a reference model)',
         level='every one of the 128 type sets, 128^2 pairs and 128^3 triples is enumerated and compared with a bit-mask model; the space is finite, so on this tree the statement is checked completely (exhaustive: true)',
